@@ -1,0 +1,14 @@
+//go:build !verif
+
+// Package verifhook holds named yield points used by the external verification harness. Without
+// the "verif" build tag every function here is an empty, inlinable no-op.
+package verifhook
+
+// Point is an ordinary scheduling point.
+func Point(string) {}
+
+// Spin marks the head of a polling loop.
+func Spin(string) {}
+
+// Acquire is called immediately before Lock/RLock on the given mutex.
+func Acquire(string, interface{}) {}
